@@ -46,6 +46,8 @@ func topFaults() []topFault {
 		{name: "unknown-type-in-global", text: "let a: Nope = 1;\nfn main() { println(a); }\n", bad: "Nope"},
 		{name: "unknown-type-in-type", text: "type A = [Nope];\nfn main() { println(1); }\n", bad: "Nope"},
 		{name: "unknown-type-in-singleton", text: "$S = { n: Nope };\nfn main() { println(1); }\n", bad: "Nope"},
+		{name: "unknown-type-as-singleton", text: "$S = s;\nfn main() { println(1); }\n", bad: "s;"},
+		{name: "unknown-type-as-unused-singleton-in-module", lib: "$S = s;\npub fn f() {}\nfn main() {}\n", text: "import f from lib;\nfn main() { f(); }\n"},
 		{name: "unknown-type-in-parameter", text: "fn f(a: Nope) {}\nfn main() { println(1); }\n", bad: "Nope"},
 		{name: "unknown-type-in-return", text: "fn f() -> Nope { 1 }\nfn main() { println(1); }\n", bad: "Nope"},
 		{name: "unknown-module", text: "import f from nosuch;\nfn main() { println(1); }\n"},
